@@ -207,3 +207,231 @@ def run_models(rep, models, depth, dedup_depth_plain=None, max_deviations=None, 
             if keys_p - keys_d:
                 rep.notes.append(f"{model.name}: the search without deduplication found {sorted(keys_p - keys_d)} that the deduplicated one missed")
     return tot
+
+
+PEER_READY = 0x12
+PEER_READY_STATES = (0x12, 0x13)
+
+
+class GateMonitor(WireTracker):
+    """C06: nothing but the expected CE message is processed before CE success; CE outcomes; CE timeouts."""
+
+    def __init__(self, sc):
+        super().__init__(sc)
+        self.st = {}        # sid -> dict
+        self.req_sock = {}  # (hbh, e2e) -> sid of env-sent requests
+
+    def sockstate(self, sid):
+        if sid not in self.st:
+            self.st[sid] = {"t0": None, "ce_in": None, "ce_ok": False, "cea_seen": False, "traffic": False, "closed_at": None,
+                            "env_closed": False, "first_out": None, "must_close": False, "never_ready": False}
+        return self.st[sid]
+
+    def eff_timeout(self, s, kind_key):
+        cfg = self.sc.cfg
+        t = cfg.get("node", {}).get(kind_key, 4)
+        host = s.host
+        if s.kind == "dialled" or (s.cer_variant is not None and s.cer_variant != "unknown"):
+            for pc in cfg.get("peers", []):
+                if pc["name"] == host and pc.get(kind_key):
+                    t = pc[kind_key]
+        return t
+
+    def step(self):
+        sc = self.sc
+        nw = sc.nw
+        node = nw.node
+        vs = []
+        socks = {s.fs.sid: s for s in sc.socks}
+        stopping = getattr(node, "_stopping", False)
+        for ev in self.events():
+            k = ev[0]
+            if k == "env_accept":
+                self.sockstate(ev[2])["t0"] = ev[1]
+            elif k == "connect":
+                t, sid, addr, plan = ev[1], ev[2], ev[3], ev[4]
+                if plan == "ok":
+                    self.sockstate(sid)["t0"] = t
+            elif k == "env_resolve":
+                if ev[3]:
+                    self.sockstate(ev[2])["t0"] = ev[1]
+            elif k in ("env_eof", "env_reset"):
+                self.sockstate(ev[2])["env_closed"] = True
+            elif k == "close":
+                st = self.sockstate(ev[2])
+                st["closed_at"] = ev[1]
+                s = socks.get(ev[2])
+                if s is not None and st["t0"] is not None and not st["ce_in"] and not st["env_closed"] and not stopping:
+                    key = "cea_timeout" if s.kind == "dialled" else "cer_timeout"
+                    if ev[1] - st["t0"] <= self.eff_timeout(s, key):
+                        vs.append((f"ce-timeout:{s.kind}:closed-before-the-deadline",
+                                   f"socket {ev[2]} established at {st['t0']} closed by the node at {ev[1]} with timeout {self.eff_timeout(s, key)} and no CE message received"))
+            elif k == "in":
+                t, sid, f = ev[1], ev[2], ev[3]
+                st = self.sockstate(sid)
+                s = socks.get(sid)
+                if f.h.is_request:
+                    self.req_sock[(f.h.hbh, f.h.e2e)] = sid
+                if s is None:
+                    continue
+                if f.h.code == 257 and f.h.is_request and s.kind == "accepted" and st["ce_in"] is None:
+                    st["ce_in"] = (s.cer_variant, f.h.ident(), t)
+                    # the node may serve what follows an acceptable CER in the same segment before its CEA is flushed
+                    st["ce_accepted"] = self.acceptable(s.cer_variant)
+                elif f.h.code == 257 and not f.h.is_request and s.kind == "dialled" and st["ce_in"] is None and s.cea_variant is not None:
+                    st["ce_in"] = (s.cea_variant, f.h.ident(), t)
+                    if s.cea_variant == "ok":
+                        st["ce_ok"] = True
+                else:
+                    st["traffic"] = True
+            elif k == "out":
+                t, sid, f = ev[1], ev[2], ev[3]
+                st = self.sockstate(sid)
+                s = socks.get(sid)
+                if s is None:
+                    continue
+                if st["first_out"] is None:
+                    st["first_out"] = f
+                    if s.kind == "dialled" and not (f.h.is_request and f.h.code == 257):
+                        vs.append(("gate:outbound:first-frame-is-not-a-CER", f"socket {sid}: {f!r}"))
+                if st["ce_ok"]:
+                    continue
+                if s.kind == "accepted":
+                    ce = st["ce_in"]
+                    if ce is not None and not f.h.is_request and f.h.code == 257 and f.h.ident() == ce[1] and not st["cea_seen"]:
+                        st["cea_seen"] = True
+                        vs += self.judge_cea(s, st, ce[0], f)
+                    else:
+                        what = "request" if f.h.is_request else "answer"
+                        vs.append((f"gate:inbound:frame-sent-before-CE-success:{what}:{cname(f.h.code)}:rc={f.result_code}",
+                                   f"socket {sid} (CER {ce[0] if ce else None}): node wrote {f!r}"))
+                else:
+                    if not (f.h.is_request and f.h.code == 257 and f is st["first_out"]):
+                        what = "request" if f.h.is_request else "answer"
+                        vs.append((f"gate:outbound:frame-sent-before-CE-success:{what}:{cname(f.h.code)}:rc={f.result_code}",
+                                   f"socket {sid} (CEA {st['ce_in'][0] if st['ce_in'] else None}): node wrote {f!r}"))
+                    elif f.get(264) != node.origin_host.encode() or f.get(296) != node.realm_name.encode():
+                        vs.append(("gate:outbound:CER-without-node-identity", f"socket {sid}: {f!r}"))
+            elif k in ("handle_request", "handle_answer"):
+                t, app_i, hbh, e2e = ev[1], ev[2], ev[3], ev[4]
+                sid = self.req_sock.get((hbh, e2e))
+                if k == "handle_request" and sid is not None and not self.sockstate(sid)["ce_ok"] and not self.sockstate(sid).get("ce_accepted"):
+                    s = socks.get(sid)
+                    ce = self.sockstate(sid)["ce_in"]
+                    vs.append((f"gate:{s.kind if s else '?'}:request-shown-to-application-before-CE-success:CE={ce[0] if ce else None}",
+                               f"socket {sid}: request hbh={hbh:#x} delivered to application {app_i}"))
+            elif k == "timer_check":
+                t, sid, state = ev[1], ev[2], ev[3]
+                s = socks.get(sid)
+                st = self.sockstate(sid)
+                if s is None or st["t0"] is None or stopping:
+                    continue
+                key = "cea_timeout" if s.kind == "dialled" else "cer_timeout"
+                arrived = st["ce_in"] is not None and st["ce_in"][2] <= t
+                if not arrived and not st["env_closed"] and t - st["t0"] > self.eff_timeout(s, key):
+                    st["must_close"] = (t, self.eff_timeout(s, key))
+        # quiescent-state obligations
+        for sid, st in self.st.items():
+            s = socks.get(sid)
+            if s is None:
+                continue
+            conn = nw.conn_of(s.fs)
+            if st["must_close"] and not s.fs.closed and not st.get("reported_timeout"):
+                st["reported_timeout"] = True
+                how = "after-other-traffic" if st["traffic"] else "silent"
+                vs.append((f"ce-timeout:{s.kind}:not-closed-at-the-first-timer-check-after-the-deadline:{how}",
+                           f"socket {sid} established at {st['t0']}, timer check at {st['must_close'][0]} with timeout {st['must_close'][1]}, no CE message yet, still open"))
+            ready = conn is not None and conn.state in PEER_READY_STATES
+            if ready and not st["ce_ok"] and not st.get("reported_ready"):
+                st["reported_ready"] = True
+                ce = st["ce_in"]
+                vs.append((f"gate:{s.kind}:connection-ready-without-CE-success:CE={ce[0] if ce else None}", f"socket {sid} state {conn.state:#x}"))
+            if st["ce_ok"] and st.get("expect_ready_check"):
+                st["expect_ready_check"] = False
+                if not ready and not s.fs.closed and not st["env_closed"]:
+                    vs.append((f"gate:{s.kind}:not-ready-after-successful-CE", f"socket {sid}: state {conn.state if conn else None}"))
+            if s.kind == "dialled" and st["ce_ok"] and not st.get("ready_checked"):
+                st["ready_checked"] = True
+                if not ready and not s.fs.closed and not st["env_closed"]:
+                    vs.append(("gate:outbound:not-ready-after-CEA-2001", f"socket {sid}: state {conn.state if conn else None}"))
+            if st.get("expect_closed") and not st.get("closed_checked"):
+                st["closed_checked"] = True
+                if not s.fs.closed:
+                    vs.append((f"gate:{s.kind}:connection-not-closed-after-{st['expect_closed']}", f"socket {sid} still open"))
+            if s.kind == "dialled" and st["ce_in"] and st["ce_in"][0] in ("3xxx", "5xxx", "norc") and not st.get("closed_checked"):
+                st["closed_checked"] = True
+                if not s.fs.closed:
+                    vs.append((f"gate:outbound:connection-not-closed-after-CEA-{st['ce_in'][0]}", f"socket {sid} still open"))
+        return vs
+
+    def acceptable(self, variant):
+        if variant == "relay":
+            return True
+        return bool(variant) and variant.startswith("p") and bool(self.sc.cfg.get("apps"))
+
+    def judge_cea(self, s, st, variant, f):
+        node = self.sc.nw.node
+        vs = []
+        rcode = f.result_code
+        if variant.startswith("p") and not self.sc.cfg.get("apps"):
+            variant = "nocommon"        # a node without applications shares nothing with a non-relay peer
+        if variant == "unknown":
+            if rcode != 3010:
+                vs.append((f"ce-outcome:unknown-peer:answered-{rcode}-instead-of-3010", f"{f!r}"))
+            st["expect_closed"] = "3010"
+            return vs
+        if variant == "nocommon":
+            if rcode != 5010:
+                vs.append((f"ce-outcome:no-common-application:answered-{rcode}-instead-of-5010", f"{f!r}"))
+            return vs
+        if variant == "nohost":
+            if rcode == 2001:
+                vs.append(("ce-outcome:CER-without-origin-host-answered-2001", f"{f!r}"))
+            return vs
+        # known peer sharing an application, or a relay
+        if rcode != 2001:
+            vs.append((f"ce-outcome:acceptable-CER-({variant}):answered-{rcode}-instead-of-2001", f"{f!r}"))
+            return vs
+        st["ce_ok"] = True
+        st["expect_ready_check"] = True
+        want_ips = list(node.ip_addresses)
+        got_ips = []
+        for p in f.getall(257):
+            try:
+                got_ips.append(str(rc.dec_address(p)[1]))
+            except rc.RefError:
+                got_ips.append(p.hex())
+        auth = sorted(int.from_bytes(p, "big") for p in f.getall(258))
+        acct = sorted(int.from_bytes(p, "big") for p in f.getall(259))
+        want_auth = sorted(a["id"] for a in self.sc.cfg.get("apps", []) if a.get("auth"))
+        want_acct = sorted(a["id"] for a in self.sc.cfg.get("apps", []) if a.get("acct"))
+        problems = []
+        if f.get(264) != node.origin_host.encode():
+            problems.append("origin-host")
+        if f.get(296) != node.realm_name.encode():
+            problems.append("origin-realm")
+        if sorted(got_ips) != sorted(want_ips):
+            problems.append("host-ip-address")
+        if f.u32(266) != node.vendor_id:
+            problems.append("vendor-id")
+        if f.get(269) != node.product_name.encode():
+            problems.append("product-name")
+        if sorted(set(auth)) != want_auth or sorted(set(acct)) != want_acct:
+            problems.append("application-ids")
+        if problems:
+            vs.append((f"ce-outcome:CEA-2001-lacks-node-identity:{'+'.join(problems)}", f"{f!r}: ips {got_ips} auth {auth} acct {acct}"))
+        return vs
+
+    def state(self):
+        now = self.sc.nw.world.now
+        cfg = self.sc.cfg
+        cap = max([cfg.get("node", {}).get(k, 4) for k in ("cer_timeout", "cea_timeout")] +
+                  [pc.get(k) or 0 for pc in cfg.get("peers", []) for k in ("cer_timeout", "cea_timeout")]) + 2
+        socks = {s.fs.sid: s for s in self.sc.socks}
+        out = []
+        for sid, st in self.st.items():
+            s = socks.get(sid)
+            pending = st["t0"] is not None and not st["ce_ok"] and s is not None and not s.fs.closed
+            out.append((sid, st["ce_ok"], st["ce_in"][0] if st["ce_in"] else None, st["cea_seen"], st["traffic"],
+                        bool(st["must_close"]), st["env_closed"], min(cap, int(now - st["t0"])) if pending else -1))
+        return tuple(sorted(out))
